@@ -155,6 +155,11 @@ def r2_r3_handle_condition(ctx, sym):
                     if isinstance(t, ast.Attribute) and t.attr == '_met_condition':
                         n += 1
                         q = getattr(enclosing_function(node), '_qualname', '<module>')
+                        if m.name == FEEDBACK and q.startswith('Feedback.') and q.count('.') == 1:
+                            # a private helper extracted from the two owners is attributed to the owner that calls it
+                            from ..astutil import root_caller
+                            q = 'Feedback.' + root_caller(m.cls('Feedback'), q.split('.', 1)[1],
+                                                          anchors=('__init__', '_handle_condition'))
                         ctx.check(m.name == FEEDBACK and q in ('Feedback.__init__', 'Feedback._handle_condition'),
                                   'R3', 'writer:_met_condition@%s:%s' % (m.name.split('.', 1)[-1], q), m, node,
                                   "_met_condition is written outside Feedback.__init__/_handle_condition",
